@@ -299,6 +299,11 @@ def r5(ctx):
     members = Attr(Idx(Attr(model, "clusters"), (donor,)), "member_points")
     rt = b.return_term()
     if not isinstance(rt, Sym):
+        from ..build import _root_term
+        if isinstance(rt, (Attr, Idx)) and _root_term(rt) == model:
+            ctx.fail(mv, "the returned labelling is an object of the caller's model, written through a local alias: the input list is edited",
+                     role="move:fresh-copy", expected=f"list({Attr(model, 'point_labels')})", found=str(rt))
+            return
         raise AnalysisError("_move_random_points does not return a local list")
     name = rt.name
     d = [n for n in cfg.nodes if n.kind == "stmt" and isinstance(n.ast, ast.Assign) and name in n.defs]
